@@ -9,7 +9,7 @@ use alloc::{vec, vec::Vec};
 macro_rules! uquery_shape {
     ($name:ident, $l:expr) => {
         #[kani::proof]
-        #[kani::unwind(10)]
+        #[kani::unwind(34)]
         fn $name() {
             let a0: [u64; $l] = vc::any_canon::<$l>();
             let a = vc::mk_from(&a0);
@@ -51,7 +51,7 @@ macro_rules! uquery_shape {
 macro_rules! uset_bit_shape {
     ($name:ident, $l:expr, $w:expr, $bit:expr) => {
         #[kani::proof]
-        #[kani::unwind(10)]
+        #[kani::unwind(34)]
         #[kani::stub(alloc::vec::Vec::shrink_to_fit, vc::noop_shrink)]
         fn $name() {
             let a0: [u64; $l] = vc::any_canon::<$l>();
@@ -74,7 +74,7 @@ macro_rules! uset_bit_shape {
 macro_rules! uclear_far_shape {
     ($name:ident, $l:expr) => {
         #[kani::proof]
-        #[kani::unwind(10)]
+        #[kani::unwind(34)]
         fn $name() {
             let a0: [u64; $l] = vc::any_canon::<$l>();
             let mut a = vc::mk_from(&a0);
@@ -90,7 +90,7 @@ macro_rules! uclear_far_shape {
 macro_rules! ibit_shape {
     ($name:ident, $neg:expr, $l:expr, $w:expr) => {
         #[kani::proof]
-        #[kani::unwind(10)]
+        #[kani::unwind(34)]
         fn $name() {
             let a0: [u64; $l] = vc::any_canon::<$l>();
             let x = mkint($neg, &a0);
@@ -107,7 +107,7 @@ macro_rules! ibit_shape {
 macro_rules! iset_bit_shape {
     ($name:ident, $neg:expr, $l:expr, $w:expr, $bit:expr) => {
         #[kani::proof]
-        #[kani::unwind(10)]
+        #[kani::unwind(34)]
         #[kani::stub(alloc::vec::Vec::shrink_to_fit, vc::noop_shrink)]
         fn $name() {
             let a0: [u64; $l] = vc::any_canon::<$l>();
@@ -133,7 +133,7 @@ macro_rules! iset_bit_shape {
 macro_rules! iset_far_shape {
     ($name:ident, $neg:expr, $l:expr, $w:expr) => {
         #[kani::proof]
-        #[kani::unwind(10)]
+        #[kani::unwind(34)]
         fn $name() {
             let a0: [u64; $l] = vc::any_canon::<$l>();
             let mut x = mkint($neg, &a0);
